@@ -70,28 +70,7 @@ def combineInfix (env : Env) (op : CmpOp) (lv rv : V) : V :=
     | v => v
   .val (.bool (Query.compare env.rx (unwrap lv) op (unwrap rv)))
 
-def combineFunc (env : Env) (name : Str) (vs : List V) : V :=
-  if name = "length".toList then
-    match vs with
-    | [a] => fnLength (unpackValue a)
-    | _ => .undef
-  else if name = "count".toList then
-    match vs with
-    | [a] => fnCount a
-    | _ => .undef
-  else if name = "value".toList then
-    match vs with
-    | [a] => fnValue a
-    | _ => .undef
-  else if name = "match".toList then
-    match vs with
-    | [a, b] => fnMatch env.rx true (unpackValue a) (unpackValue b)
-    | _ => .undef
-  else if name = "search".toList then
-    match vs with
-    | [a, b] => fnMatch env.rx false (unpackValue a) (unpackValue b)
-    | _ => .undef
-  else .undef
+def combineFunc (env : Env) (name : Str) (vs : List V) : V := applyFn env.rx name vs
 
 mutual
   /-- evaluation through the cache tree: `CachingFilterExpression.evaluate` at cached nodes -/
